@@ -92,6 +92,17 @@ def check_cli(chk) -> None:
                 outs.append(w)
     opens = [c for c in ast.walk(fi.node) if isinstance(c, ast.Call) and norm(c.func) == "open" and c.args and norm(c.args[0]) == "args.output"]
     ok = len(outs) == 1 and len(opens) == 1 and reads and reads[0][0].lineno < outs[0].lineno and all(c.lineno < outs[0].lineno for c in lib.values())
+    if not ok and opens and reads:
+        # positive evidence: an open of the output path (truncating) is evaluated before, or around, the read of the input
+        first_open = min(opens, key=lambda c: (c.lineno, c.col_offset))
+        rd = reads[0][0]
+        encloses = any(any(rd is n for n in ast.walk(w)) for w in outs)
+        before = first_open.lineno < rd.lineno
+        late_lib = [c for c in lib.values() if c.lineno > first_open.lineno]
+        if encloses or before or late_lib:
+            why = "the output is opened around the read of the input" if encloses else ("the output is opened before the input is read" if before else "the output is opened before the result is computed")
+            chk.violation("cli-open-order-evidence", fi.site(first_open), f"{why}: opening for writing truncates the file, so with output == input (in-place use) the document is empty when it is read, and a failing transformation leaves an empty output", K(fi, "open-order"))
+            ok = True  # reported above with evidence; do not repeat as a form mismatch
     chk.expect(ok, "cli-open-order", fi.where, "the output is opened for writing after the input was read and transformed (in-place use is safe)", "the output file is not opened after the input was read and the result computed: with output == input the document is truncated first", K(fi, "open-order"))
     body = [flat(s) for s in outs[0].body] if outs else []
     chk.expect(body == [flat(f"f.write({norm(writes[0].args[0])})")] if writes else False, "cli-writes-str", fi.where, "the output receives exactly one write of the result", "the output is not written by a single f.write(result)", K(fi, "single-write"))
@@ -141,6 +152,96 @@ def check_library(chk) -> None:
             chk.expect(mi is not None and norm(mi) == "{}", "row-stores", fi.where, "the mapping starts empty", "mapping is not initialised empty", K(fi, "mapping-init"))
 
 
+def check_library_eval(chk) -> None:
+    """The editing fragment of both library functions (from the attribute list to the re-serialisation) evaluated on small categories:
+    only the target column changes, a new target item is appended to every row, the mapping is first-seen and injective."""
+    from sa.blockeval import BlockEval, Unknown
+
+    repo = chk.repo
+
+    class _Cat:
+        _folder_stub = True
+
+        def __init__(s2, attrs, rows):
+            s2.attrs, s2.rows = attrs, rows
+
+        def getAttributeList(s2):
+            return s2.attrs
+
+        def getRowList(s2):
+            return s2.rows
+
+    def fragment(fi):
+        body = fi.node.body
+        a = [k for k, st in enumerate(body) if isinstance(st, ast.Assign) and norm(st.targets[0]) == "attributes"]
+        b = [k for k, st in enumerate(body) if any(isinstance(c2, ast.Call) and isinstance(c2.func, ast.Attribute) and c2.func.attr in ("replace", "writeFile") for c2 in ast.walk(st))]
+        if not a or not b or b[0] <= a[0]:
+            return None
+        return body[a[0] : b[0]]
+
+    # ---- copy_from_to ------------------------------------------------------------------------------------
+    fi = repo.func(M, "copy_from_to")
+    frag = fragment(fi)
+    if frag is None:
+        chk.error("edit-eval", fi.where, "editing fragment of copy_from_to not found")
+    else:
+        cases = [
+            ("existing target", ["a", "b", "c"], [["1", "2", "3"], ["4", "5", "6"]], "a", "c", ["a", "b", "c"], [["1", "2", "1"], ["4", "5", "4"]]),
+            ("new target", ["a", "b", "c"], [["1", "2", "3"], ["4", "5", "6"]], "b", "d", ["a", "b", "c", "d"], [["1", "2", "3", "2"], ["4", "5", "6", "5"]]),
+            ("target before source", ["a", "b", "c"], [["1", "2", "3"]], "c", "a", ["a", "b", "c"], [["3", "2", "3"]]),
+            ("source = target", ["a", "b"], [["1", "2"]], "b", "b", ["a", "b"], [["1", "2"]]),
+        ]
+        bad = []
+        try:
+            for tag, attrs, rows, src, dst, want_attrs, want_rows in cases:
+                attrs2, rows2 = list(attrs), [list(r) for r in rows]
+                ev = BlockEval(repo, M, {"category_obj": _Cat(attrs2, rows2), "file_content": "DOC", "copy_from": src, "copy_to": dst, "category": "cat"})
+                kind, val = ev.run(frag)
+                if kind != "fall":
+                    bad.append(f"{tag}: the fragment leaves early ({kind} {val!r})")
+                elif attrs2 != want_attrs or rows2 != want_rows:
+                    bad.append(f"{tag} ({src} -> {dst}): category becomes {attrs2} {rows2}, expected {want_attrs} {want_rows}")
+            chk.expect(not bad, "edit-eval", fi.where, f"copy_from_to: {len(cases)} categories evaluated - each row's target := its source (appended when the item is new), nothing else changes, edits are made on the category's own lists", "copy_from_to edits wrongly: " + "; ".join(bad[:2]), K(fi, "edit-eval"), found=bad[:4])
+        except Unknown as ex:
+            chk.error("edit-eval", fi.where, f"copy_from_to fragment not evaluable: {ex}")
+        except Exception as ex:
+            chk.violation("edit-eval", fi.where, f"copy_from_to raises {type(ex).__name__} ({ex}) on a small category", K(fi, "edit-raises"))
+    # ---- replace_value ------------------------------------------------------------------------------------
+    fi = repo.func(M, "replace_value")
+    frag = fragment(fi)
+    if frag is None:
+        chk.error("edit-eval", fi.where, "editing fragment of replace_value not found")
+    else:
+        cases = [
+            ("repeated values", ["a", "b", "c"], [["1", "p", "3"], ["4", "q", "6"], ["7", "p", "9"]], "b", "XYZ", [["1", "X", "3"], ["4", "Y", "6"], ["7", "X", "9"]], {"p": "X", "q": "Y"}),
+            ("first column", ["a", "b"], [["u", "1"], ["v", "2"], ["u", "3"], ["w", "4"]], "a", "0123", [["0", "1"], ["1", "2"], ["0", "3"], ["2", "4"]], {"u": "0", "v": "1", "w": "2"}),
+            ("value equal to a symbol", ["a"], [["Y"], ["X"]], "a", "XY", [["X"], ["Y"]], {"Y": "X", "X": "Y"}),
+        ]
+        bad = []
+        try:
+            for tag, attrs, rows, col, values, want_rows, want_map in cases:
+                attrs2, rows2 = list(attrs), [list(r) for r in rows]
+                ev = BlockEval(repo, M, {"category_obj": _Cat(attrs2, rows2), "file_content": "DOC", "column": col, "values": values, "category": "cat"})
+                kind, val = ev.run(frag)
+                if kind != "fall":
+                    bad.append(f"{tag}: the fragment leaves early ({kind} {val!r})")
+                elif attrs2 != attrs or rows2 != want_rows or ev.env.get("mapping") != want_map:
+                    bad.append(f"{tag} (item {col}): rows become {rows2} with mapping {ev.env.get('mapping')}, expected {want_rows} with {want_map}")
+            chk.expect(not bad, "edit-eval", fi.where, f"replace_value: {len(cases)} categories evaluated - the item's values are replaced through a first-seen injective mapping (next unused symbol), nothing else changes", "replace_value edits wrongly: " + "; ".join(bad[:2]), K(fi, "edit-eval"), found=bad[:4])
+        except Unknown as ex:
+            chk.error("edit-eval", fi.where, f"replace_value fragment not evaluable: {ex}")
+        except Exception as ex:
+            chk.violation("edit-eval", fi.where, f"replace_value raises {type(ex).__name__} ({ex}) on a small category", K(fi, "edit-raises"))
+    # ---- no memoisation of parsed (mutable) documents -------------------------------------------------------------
+    n = 0
+    for q, g in sorted(repo.modules[M].funcs.items()):
+        decs = [d for d in g.decorators if d.split("(")[0].split(".")[-1] in ("cache", "lru_cache")]
+        if decs:
+            n += 1
+            chk.violation("memo-mutable", g.where, f"`@{decs[0]}` memoises {q}: the library edits the parsed containers in place, so a second call with the same text starts from the already edited document (and the cached object keeps changing)", K(g, "memo"))
+    chk.ok("memo-mutable", f"src/rnapolis/{M}.py", "no function of the module is memoised")
+
+
 def run(chk) -> None:
     chk.explanation = (
         "Static rules on transformer.py. CLI: path-vs-content kinds (the argument bound to file_content must be the .read() of the file opened on args.input), light type inference on the value written "
@@ -149,8 +250,11 @@ def run(chk) -> None:
     )
     chk.trusted = ["CPython ast", "mmcif IoAdapterPy re-serialises untouched categories faithfully", "category_obj.getAttributeList()/getRowList() return the category's own lists"]
     chk.assumptions = ["values has enough symbols for the distinct values (IndexError otherwise is the caller's contract)"]
+    chk.robust |= {"cli-path-args", "cli-content", "cli-writes-str", "cli-wiring", "edit-eval", "memo-mutable", "edit-reaches-output", "cli-open-order-evidence"}
+    chk.superseded.update({"row-stores": "edit-eval", "new-item": "edit-eval"})
     check_cli(chk)
     check_library(chk)
+    check_library_eval(chk)
     for rule, n in (("cli-content", 3), ("cli-writes-str", 2), ("row-stores", 3), ("early-exit-identity", 4), ("edit-reaches-output", 2)):
         chk.floor(rule, n)
 
